@@ -31,8 +31,9 @@ RULE = ("seeded plans: 1-3 trees whose entries are drawn from an adversarial "
         "blobs to absolute/parent/sibling/.git targets, set-uid/gid/sticky/"
         "world-writable modes, symlink<->directory<->file replacements of the "
         "same name between consecutive trees; materialised by clone / "
-        "checkout / reset --hard / reset --mixed + --hard / "
-        "build_index_from_tree / update_working_tree "
+        "checkout / switch / reset --hard / reset --mixed + --hard / "
+        "restore / stash pop / apply_patch / am / build_index_from_tree / "
+        "update_working_tree "
         "with core.protectNTFS/HFS on or off, optional injected error "
         "mid-checkout. Distinct by hash of the tree specs + operations; "
         "non-trivial when at least one entry is unsafe or a name changes kind "
@@ -155,12 +156,14 @@ def gen_plan(seed, tier):
     trees = [t1]
     for _ in range(rng.choice([0, 1, 1, 2])):
         trees.append(mutate_tree(rng, trees[-1]))
-    first = rng.choice(["clone", "clone", "build_index", "checkout_branch"])
+    first = rng.choice(["clone", "clone", "build_index", "checkout_branch",
+                        "stash_pop", "apply_patch", "restore"])
     ops = [first]
     for _ in trees[1:]:
         ops.append(rng.choice(["checkout_branch", "checkout_force",
                                "reset_hard", "update_working_tree",
-                               "reset_mixed_hard"]))
+                               "reset_mixed_hard", "stash_pop", "apply_patch",
+                               "am", "switch", "restore"]))
     if rng.random() < 0.15:
         # the same tree again by another route: the index already lists it
         trees.append(trees[-1])
@@ -221,9 +224,80 @@ def has_unsafe(ents):
     return False
 
 
+def flat_entries(ents, prefix=b""):
+    """[(path, kind, spec)] of every file/link entry, paths joined by '/'."""
+    out = []
+    for e in ents:
+        name = bytes.fromhex(e["n"])
+        if b"\0" in name:
+            continue
+        path = prefix + name
+        if e["k"] == "dir":
+            out.extend(flat_entries(e["e"], path + b"/"))
+        else:
+            out.append((path, e["k"], e))
+    return out
+
+
+def quote_path(p):
+    """git's C-style quoting of a path in a diff header."""
+    if all(0x20 < b < 0x7f and b not in b'"\\' for b in p):
+        return p
+    out = b'"'
+    for b in p:
+        if b in b'"\\':
+            out += b"\\" + bytes([b])
+        elif 0x20 <= b < 0x7f:
+            out += bytes([b])
+        else:
+            out += b"\\%03o" % b
+    return out + b'"'
+
+
+def make_patch(ents, ctx, existing=()):
+    """A unified diff that creates every file/link entry of the tree (and
+    modifies the ones in ``existing``)."""
+    out = []
+    for path, kind, e in flat_entries(ents):
+        if kind == "link":
+            t = e["t"]
+            if t.startswith("ABS:"):
+                t = os.path.join(ctx["root"], *DEPTH, t[4:]) if \
+                    t[4:].startswith("wt") else os.path.join(ctx["root"],
+                                                             t[4:])
+            body = os.fsencode(t)
+            mode = b"120000"
+            lines = [body]
+            nonl = True
+        else:
+            body = b"PAYLOAD-%d-" % e["c"] + ctx["marker"]
+            mode = b"%o" % (e["mode"] & 0o177777)
+            lines = [body]
+            nonl = False
+        a, b = quote_path(b"a/" + path), quote_path(b"b/" + path)
+        out.append(b"diff --git " + a + b" " + b + b"\n")
+        out.append(b"new file mode " + mode + b"\n")
+        out.append(b"--- /dev/null\n+++ " + b + b"\n")
+        out.append(b"@@ -0,0 +1 @@\n")
+        for ln in lines:
+            out.append(b"+" + ln + b"\n")
+        if nonl:
+            out.append(b"\\ No newline at end of file\n")
+    return b"".join(out)
+
+
+def make_mbox(patch):
+    return (b"From 0000000000000000000000000000000000000000 Mon Sep 17 "
+            b"00:00:00 2001\nFrom: A U Thor <author@example.com>\n"
+            b"Date: Thu, 1 Jan 2026 00:00:00 +0000\n"
+            b"Subject: [PATCH] adversarial\n\nbody\n---\n" + patch +
+            b"-- \n2.0\n\n")
+
+
 GIT_ALLOWED = ("index", "HEAD", "ORIG_HEAD", "packed-refs", "shallow",
                "MERGE_HEAD", "index.lock")
-GIT_ALLOWED_DIRS = ("refs/", "logs/", "objects/")
+# rebase-apply/ is where am keeps the mailbox it is applying (as git does)
+GIT_ALLOWED_DIRS = ("refs/", "logs/", "objects/", "rebase-apply/")
 
 
 def git_snapshot(gitdir):
@@ -310,6 +384,14 @@ def run_plan(plan):
                 stats["probe:symlink_then_dir"] = 1
         wt_real = R.realpath(wt)
         git_real = os.path.join(wt_real, ".git")
+        # the machine's temp directory is part of the simulated disk (am and
+        # the patch parser use temporary files); it is neither work tree nor
+        # a place tree content may land in
+        import tempfile
+        tmp_real = os.path.join(R.realpath(root), "tmp")
+        R.makedirs(tmp_real, exist_ok=True)
+        old_tempdir = tempfile.tempdir
+        tempfile.tempdir = tmp_real
         state = {"git_snap": None, "in_clone": False}
 
         # ------------------------------------------------ the monitor
@@ -329,6 +411,8 @@ def run_plan(plan):
             if inside(tgt, R.realpath(src)):
                 viol(f"write-into-source-repository/{call}", rel)
                 return
+            if inside(tgt, tmp_real):
+                return
             if not inside(tgt, wt_real):
                 viol(f"write-outside-worktree/{call}",
                      f"{call} {rel!r} resolves to {tgt!r}, outside "
@@ -341,7 +425,7 @@ def run_plan(plan):
             if call in ("rename", "replace") and info and info[0] is not None:
                 tgt = resolved(info[0])
                 if not inside(tgt, wt_real) and not inside(
-                        tgt, R.realpath(src)):
+                        tgt, R.realpath(src)) and not inside(tgt, tmp_real):
                     viol(f"write-outside-worktree/{call}-destination",
                          f"{rel!r} -> {info[0]!r} resolves to {tgt!r}")
             if call == "symlink":
@@ -375,6 +459,9 @@ def run_plan(plan):
             # tree payload must never appear inside .git outside objects/
             for dp, dns, fns in simfs.real_walk(git_real):
                 if "/objects" in dp or dp.endswith("objects"):
+                    dns[:] = []
+                    continue
+                if dp == os.path.join(git_real, "rebase-apply"):
                     dns[:] = []
                     continue
                 for n in fns:
@@ -445,6 +532,56 @@ def run_plan(plan):
                                 # written), then materialised
                                 porcelain.reset(r, "mixed", commits[i])
                                 porcelain.reset(r, "hard", commits[i])
+                            elif op == "switch":
+                                porcelain.switch(r, b"t%d" % i,
+                                                 force=bool(i % 2))
+                            elif op == "restore":
+                                paths = [pth for pth, _k, _e in
+                                         flat_entries(plan["trees"][i])]
+                                for pth in paths:
+                                    try:
+                                        porcelain.restore(r, [pth],
+                                                          source=commits[i])
+                                    except Exception as e:  # noqa: BLE001
+                                        if is_injected(e):
+                                            raise
+                                        stats["probe:checkout_refused"] = 1
+                            elif op == "apply_patch":
+                                porcelain.apply_patch(
+                                    r, patch_file=io.BytesIO(make_patch(
+                                        plan["trees"][i], ctx)))
+                            elif op == "am":
+                                porcelain.am(
+                                    r, patches=io.BytesIO(make_mbox(make_patch(
+                                        plan["trees"][i], ctx))),
+                                    committer=b"C <c@example.com>",
+                                    commit_timestamp=1700000000,
+                                    commit_timezone=0)
+                            elif op == "stash_pop":
+                                # a stash whose work-tree side is the tree
+                                try:
+                                    head = r.refs[b"HEAD"]
+                                except KeyError:
+                                    head = commits[max(0, i - 1)]
+                                    r.refs[b"HEAD"] = head
+                                ic = util.mk_commit(
+                                    r[head].tree, [head], b"index on x\n",
+                                    1700001000 + i)
+                                wc = util.mk_commit(
+                                    tree_id, [head, ic.id], b"WIP on x\n",
+                                    1700001001 + i)
+                                r.object_store.add_object(ic)
+                                r.object_store.add_object(wc)
+                                r.refs[b"refs/stash"] = wc.id
+                                lp = os.path.join(git_real, "logs", "refs")
+                                R.makedirs(lp, exist_ok=True)
+                                with R.open(os.path.join(lp, "stash"),
+                                            "wb") as f:
+                                    f.write(b"0" * 40 + b" " + wc.id +
+                                            b" S <s@example.com> 1700001001 "
+                                            b"+0000\tWIP on x\n")
+                                state["git_snap"] = git_snapshot(git_real)
+                                porcelain.stash_pop(r)
                             elif op == "update_working_tree":
                                 from dulwich.diff_tree import tree_changes
                                 from dulwich.index import update_working_tree
@@ -479,9 +616,18 @@ def run_plan(plan):
                         check_git(label)
                     if op == "clone":
                         state["git_snap"] = git_snapshot(git_real)
-        act = sim.run_inline("main", body)
+        try:
+            act = sim.run_inline("main", body)
+        finally:
+            tempfile.tempdir = old_tempdir
         gc.collect()
         simfs.deactivate()
+        # payload must not be left in the temp directory's place either
+        for dp, dns, fns in simfs.real_walk(tmp_real):
+            for n in fns:
+                data = util.read_real(os.path.join(dp, n)) or b""
+                if marker in data:
+                    stats["probe:payload_in_tempfile"] = 1
         if act.exc is not None:
             viol(f"harness-exception/{type(act.exc).__name__}", repr(act.exc))
         # canaries and strays
@@ -495,7 +641,7 @@ def run_plan(plan):
                 full = os.path.join(d, n)
                 if full in canaries or n in ("wt", "src.git", "outside",
                                              "outside-rel", "l1", "l2", "l3",
-                                             "l4", "l5"):
+                                             "l4", "l5", "tmp"):
                     continue
                 viol("stray-file-outside-worktree",
                      f"{os.path.relpath(full, root)} appeared")
